@@ -23,7 +23,8 @@ PROP = dict(
                   "in the output"],
     assumptions=["inputs as the Rust types constrain them: strings of Unicode scalar values, non-zero u16 syllables, u32 frequency, "
                  "optional u64 timestamp; lookup_all_phrases is lookup_first_n_phrases with first = usize::MAX, where the cut-off "
-                 "`result.len() > first` cannot fire (the model's lookupAll omits it; lookupFirstN models it for every other n)",
+                 "`result.len() > first` and `result.truncate(first)` cannot fire (the model's lookupAll omits them; lookupFirstN "
+                 "models both for every other n)",
                  "the statement is about successful writes (after the F13 fix `write` fails loudly beyond the 16-bit limits and "
                  "beyond der's 256 MiB Length::MAX); `writes_within_limits` proves success inside the limits",
                  "`slice::sort_by` is modelled as a stable sort (insertion from the right); since the comparator is a total "
@@ -37,8 +38,9 @@ MANIFEST = dict(
          "including the DER shapes of the `der` crate: for all metadata and all finite insert sequences, a successful write opens "
          "with identical metadata; exact lookups return exactly the inserted phrases (re-insert replaces in place) in the documented "
          "order and nothing for absent keys; fuzzy prefix lookups return exactly the same-length keys matching syllable-wise (C13's "
-         "starts_with), each once; lookup_first_n_phrases returns a prefix of the full result that is all of it or longer than n "
-         "(whole leaves), lookup_first_phrase its head; entries() yields every (key, phrase) once; the bytes are a Document of "
+         "starts_with), each once; lookup_first_n_phrases(key, n) returns exactly the first n phrases of the full result for every n and "
+         "both strategies (`first_n_prefix`: lookupFirstN = (lookupAll).take n — C09's 'first n = prefix of the full result' for the "
+         "Trie back end), lookup_first_phrase its head; entries() yields every (key, phrase) once; the bytes are a Document of "
          "trie.asn1 whose index is the BFS layout (leaf first, children ascending, consecutive ranges). `reader_on_conforming_file`: "
          "every conforming file, whoever wrote it, is read as the map of its tree (independent writer). Proof by DER round trips, "
          "the BFS loop invariant (bfs_layout), refinement of the reader to a walk on the builder tree, and the explicit-stack DFS of "
@@ -47,10 +49,11 @@ MANIFEST = dict(
          "'equal input, equal bytes'); this is checked by the oracle on regrouped inputs. Tie: trie.asn1 / trie.rs constants "
          "regenerated every run; byte-for-byte correspondence of writer and reader on generated entry sets and extreme shapes; "
          "oracle = the statement on the real code with a reference map and an independent format parser.",
-    note="Findings repaired in the repository (three `fix:` commits): F13 (`as u16` truncation, write now errors), F40 (freq range of "
+    note="Findings repaired in the repository (four `fix:` commits): F13 (`as u16` truncation, write now errors), F40 (freq range of "
          "trie.asn1 said 16 bits) and F41 (the phrase comparator was not a total order: sort_by could panic on leaves mixing single "
-         "characters and phrases). Observation outside the statement: Trie::lookup_first_n_phrases never truncates to n (TrieBuf and "
-         "Layered do); modelled as is. Trusted: Lean kernel (propext, Classical.choice, Quot.sound), the translator, the harness and "
+         "characters and phrases); F11 (found by C09, commit c70c911): Trie::lookup_first_n_phrases returned whole leaves beyond n "
+         "(TrieBuf and Layered truncate) — it now ends with result.truncate(first), the model and the first-n theorems follow the "
+         "fixed code. Trusted: Lean kernel (propext, Classical.choice, Quot.sound), the translator, the harness and "
          "compiled model driver; the model of `der`, of `sort_by` (any stable sort, the comparator being a proved total preorder) and "
          "the tree abstraction of the arena are validated by correspondence, not derived from source.",
     technique="Lean 4 proof (induction over the builder tree, BFS/DFS loop invariants, DER round trips) + sampled byte-for-byte correspondence",
